@@ -199,10 +199,13 @@ func defaultConfig() ref.Config {
 // newWorld builds a world. clock may be nil (no virtual time accounting).
 func newWorld(cfg ref.Config, ch *env.Chooser, clock *env.Clock) *World {
 	w := &World{BMC: ref.NewBMC(cfg), Clock: clock}
-	// replies are windows into one reused, poisoned 512-byte receive buffer, as
-	// with the real transport: a value that keeps pointing into it is overwritten
-	// by the next datagram
-	w.T = &env.Transport{BMC: w.BMC, Ch: ch, Clock: clock, Timeout: time.Second, Window: true, Poison: 0xAA}
+	// Replies are exact-capacity copies by default, so that reading past the
+	// datagram panics; C12 and C14 switch to windows into one reused, poisoned
+	// 512-byte buffer (what the real transport hands out), so that a value that
+	// keeps pointing into the buffer is seen to change. Making the window the
+	// default was tried and withdrawn: it turned the loud over-read of a seeded
+	// change (C05-muta6) into a silent one.
+	w.T = &env.Transport{BMC: w.BMC, Ch: ch, Clock: clock, Timeout: time.Second}
 	w.Ctx, w.Cancel = newCtx()
 	if clock != nil {
 		clock.Cancel = w.Cancel
